@@ -26,7 +26,7 @@ the operations is the order of the Rust code (so `l_0·(1 − z)` is computed as
 `y`-fold starts from the first identity instead of zero, …). Field elements are canonical
 naturals below the modulus, with the operations of `MidnightZK.C02.Ids` (imported read-only,
 together with its data types: this is the off-circuit reference the theorems compare with).
-`none` = the Rust code panics or returns `Err` at synthesis (`unwrap` of an empty iterator,
+`none` = the Rust code panics or returns `Err` at synthesis (`unwrap` of a missing last evaluation,
 `Expression::Challenge`, `try_reduce` of no expression).
 -/
 namespace MidnightZK.C20.V
@@ -88,27 +88,41 @@ def gLagrange (f : Fld) (cs : VCS) (x : Nat) : Lagrange :=
     lBlind := gSum f.p ((lEvals.drop 1).take bf),
     l0 := lEvals.getD (1 + bf) 0 }
 
+/-- `instance_queries.iter().map(|(_, rot)| rot.0).min().unwrap_or(0)` and `.max().unwrap_or(0)`. -/
+def rotMinMax : List Int → Int × Int
+  | [] => (0, 0)
+  | r0 :: rs => (rs.foldl min r0, rs.foldl max r0)
+
 /-- The `instance_evals` block: `min_rotation` / `max_rotation` over the instance queries
-(`.min().unwrap()`: `none` when the constraint system has no instance query),
+(`unwrap_or(0)` for a constraint system without instance queries),
 `l_i_s = evaluate_lagrange_polynomials((-max_rotation)..(max_len + |min_rotation|))`, then per
-query either a scalar read from the proof (`committedEval queryIndex`) or
-`inner_product(instances, l_i_s[offset..offset + len])`, `offset = max_rotation − rotation`. -/
+query either a scalar read from the proof (`committedEval queryIndex`), the constant zero for an
+instance column without values (`assign_fixed(ZERO)`), or
+`inner_product(instances, l_i_s[offset..offset + len])`, `offset = max_rotation − rotation`
+(`none`: the slice is out of range — excluded by `gadget_instance_evals_total`). -/
 def gInstanceEvals (f : Fld) (cs : VCS) (nCommitted : Nat) (x : Nat) (plain : List (List Nat))
     (committedEval : Nat → Nat) : Option (List Nat) :=
-  match cs.instanceQueries.map (·.2) with
-  | [] => none
-  | r0 :: rs =>
-    let minRot := rs.foldl min r0
-    let maxRot := rs.foldl max r0
-    let maxLen := (plain.map List.length).foldl max 0
-    let hi : Int := (maxLen : Int) + (minRot.natAbs : Int)
-    let lis := lagrangePolys f cs.k x (intRange (-maxRot) (hi - (-maxRot)).toNat)
-    cs.instanceQueries.zipIdx.mapM fun (q, qi) =>
-      if q.1 < nCommitted then some (committedEval qi)
+  let mm := rotMinMax (cs.instanceQueries.map (·.2))
+  let minRot := mm.1
+  let maxRot := mm.2
+  let maxLen := (plain.map List.length).foldl max 0
+  let hi : Int := (maxLen : Int) + (minRot.natAbs : Int)
+  let lis := lagrangePolys f cs.k x (intRange (-maxRot) (hi - (-maxRot)).toNat)
+  cs.instanceQueries.zipIdx.mapM fun (q, qi) =>
+    if q.1 < nCommitted then some (committedEval qi)
+    else
+      let inst := plain.getD (q.1 - nCommitted) []
+      if inst.isEmpty then some 0
       else
-        let inst := plain.getD (q.1 - nCommitted) []
         let offset := (maxRot - q.2).toNat
         gInnerProduct f.p inst ((lis.drop offset).take inst.length)
+
+/-- The instance block as it stood before the repair `fix: the in-circuit verifier handles an inner
+circuit without instance queries` (`.min().unwrap()` / `.max().unwrap()`): `none` = panic. Kept
+for the historical witness `pinned_gadget_needs_instance_query`. -/
+def pinnedRotMinMax : List Int → Option (Int × Int)
+  | [] => none
+  | r0 :: rs => some (rs.foldl min r0, rs.foldl max r0)
 
 /-- `expressions/mod.rs: eval_expression` (`Expression::Challenge` panics: "We do not suport
 multi-phase yet"; selectors have been replaced by fixed columns). -/
